@@ -992,7 +992,7 @@ def formula_probe(ctx, rng, drv, tie_broken, reps):
 
 def window_probe(ctx, rng):
     """positions that differ by less than the former np.allclose tolerance of Field._pos_equal are different positions
-    (repaired by bd353ac), and another ext_drift given with the call is another kriging target (fb09c72)"""
+    (repaired by 1925c43), and another ext_drift given with the call is another kriging target (51cde63)"""
     import gstools as gs
     cv = np.array([0.47, 0.56, 0.74, 1.47])
     # small coordinates, shift 4e-6
